@@ -6,6 +6,7 @@
 -/
 import Z80.Lemmas.TableRows
 import Z80.Lemmas.Block
+import Z80.Lemmas.Plain
 namespace Z80
 
 abbrev decoded4 (a : Arch) : Decoded := decode a.bus a.reg.pc (firstByte a)
@@ -30,6 +31,17 @@ theorem C04_step_partial (a : Arch) (hr : IsRow (decoded4 a))
   cases htk : taken d.instr a
   · rw [hrow.2, e]
   · rw [hrow.1, e]
+
+/-- the same at the level of `CPU::execute` for a step with nothing pending and no halt -/
+theorem C04_execute_partial (c : Cpu) (hq : c.arch.quiet) (hr : IsRow (decoded4 c.arch))
+    (hd : Spec.documented (decoded4 c.arch).page (decoded4 c.arch).op = true)
+    (hio : Spec.io (decoded4 c.arch).page (decoded4 c.arch).op = false)
+    (hb : Spec.isBlockRepeat (decoded4 c.arch).instr = false) :
+    Spec.timing (decoded4 c.arch).page (decoded4 c.arch).instr (taken (decoded4 c.arch).instr c.arch) = some (step c).2.toNat := by
+  have : (step c).2 = (dispatch c.arch).2.1 := by
+    show (stepArch c.arch).2.1 = _
+    rw [stepArch_quiet _ hq]
+  rw [this]; exact C04_step_partial c.arch hr hd hio hb
 
 /-- the count depends on the data only through the branch outcome: two states that decode the same
     row with the same outcome report the same count -/
